@@ -331,6 +331,21 @@ def mutate_doc(rng, classes, t, doc) -> tuple[Any, str | None]:
     return go(t, doc, None)
 
 
+def dedup(v):
+    """documents are Python dicts: a repeated key (possible with non-bijective maps) keeps its first position and
+    its last value — normalise so that the JSON form, the Python object and the Coq term denote the same document"""
+    if v[0] == "l":
+        return ["l", [dedup(x) for x in v[1]]]
+    if v[0] == "m":
+        d: dict = {}
+        for k, x in v[1]:
+            d[k] = dedup(x)
+        return ["m", [[k, x] for k, x in d.items()]]
+    if v[0] == "D":
+        return ["D", v[1], [[k, dedup(x)] for k, x in v[2]]]
+    return v
+
+
 def gen_conv_case(rng, malformed: bool) -> dict:
     classes = gen_classes(rng, malformed_maps=malformed and rng.random() < 0.5)
     n = len(classes)
@@ -378,6 +393,10 @@ def gen_conv_case(rng, malformed: bool) -> dict:
             plan.append({"step": "encode", "val": root})
     if not plan:
         plan.append({"step": "decode_encode", "ty": "int", "doc": ["i", 1], "conforming": True})
+    for st in plan:
+        for key in ("doc", "val"):
+            if key in st:
+                st[key] = dedup(st[key])
     return {"kind": "conv", "classes": classes, "plan": plan}
 
 
@@ -720,7 +739,8 @@ def run_ser(case: dict) -> dict:
         raise _Timeout()
     old = signal.signal(signal.SIGALRM, on_alarm)
     try:
-        signal.setitimer(signal.ITIMER_REAL, SER_TIMEOUT)
+        signal.setitimer(signal.ITIMER_REAL, SER_TIMEOUT, 0.05)   # periodic: a tick that lands at the recursion limit
+        # cannot even enter the handler (RecursionError, swallowed like the others); the next tick will
         try:
             r = U.DataclassSerializer.serialize(get(case["root"]))
         finally:
